@@ -159,6 +159,9 @@ def run(ctx):
                      % (len(variants), ks, seeds), sample=dict(variant=variants[0], k=ks[1], hashseed=seeds[0]))
     # read-only-ness
     rfam = [d for d in designs.family('quick', ctx.seed) if d['name'] != 'rand_design' or d['params']['seed'] % 4 == 0]
+    # wide concats / bit reversals: output_to_firrtl's in-place passes (one_bit_selects, two_way_concat) see many operands
+    rfam += [{'name': 'concat_many', 'params': {'n': 11, 'w': 22}}, {'name': 'concat_many', 'params': {'n': 19, 'w': 40}},
+             {'name': 'slices', 'params': {'w': 12}}, {'name': 'slices', 'params': {'w': 20}}]
     rres = passcheck.pmap(_ro, rfam)
     for d, r in zip(rfam, rres):
         if r.get('crashed'):
